@@ -416,3 +416,49 @@ contract(MT + '_apply_annotations_element_type',
                  "implies(opts is not None and not isinstance(ty, (ast.List, ast.Array, ast.Map)), "
                  "LOGGER._warning_count == old(LOGGER._warning_count) + 1)",
          })
+
+
+# ---- per-parameter / return dispatch ----------------------------------------------------------------------------------------
+DISPATCH_MODS = ['node.type', 'node.direction', 'node.caller_allocates', 'node.nullable', 'node.not_nullable',
+                 'node.optional', 'node.skip', 'node.doc', 'node.doc_position', 'node.attributes{}',
+                 '*.transfer', '*.direction', '*.element_type', '*.key_type', '*.value_type', '*.scope',
+                 'LOGGER._warning_count']
+contract(MT + '_apply_annotations_param',
+         params={'self': 'MainTransformer', 'parent': 'Callable', 'param': 'Parameter', 'tag': 'GtkDocParameter?',
+                 'block': 'GtkDocCommentBlock?'},
+         props=('C01',), requires=[CTYPE_OK.replace('node', 'param'), 'param.type is not None'],
+         modifies=[m.replace('node.', 'param.') for m in DISPATCH_MODS] + ['param.destroy_name', 'param.closure_name'],
+         raises={'KeyError': 'True', 'AssertionError': 'True', 'SystemExit': 'True', 'ValueError': 'True'},
+         ensures={
+             'C01.param.callback_annotations_only_on_functions_and_vfuncs':
+                 "all_calls('_apply_annotations_param_callback', 'isinstance(parent, (ast.Function, ast.VFunction)) and "
+                 "arg_parent is parent and arg_param is param and arg_tag is tag')",
+             'C01.param.closure_marker_only_inside_callback_types':
+                 "all_calls('_apply_annotations_param_closure', 'isinstance(parent, ast.Callback) and "
+                 "arg_parent is parent and arg_param is param and arg_tag is tag')",
+             'C01.param.common_annotations_always':
+                 "all_calls('_apply_annotations_param_ret_common', 'arg_parent is parent and arg_node is param and arg_tag is tag')",
+             'C01.param.callback_before_common':
+                 "calls_ordered('_apply_annotations_param_callback', '_apply_annotations_param_ret_common') and "
+                 "calls_ordered('_apply_annotations_param_closure', '_apply_annotations_param_ret_common')",
+         })
+
+contract(MT + '_apply_annotations_return',
+         params={'self': 'MainTransformer', 'parent': 'Callable', 'return_': 'Return', 'block': 'GtkDocCommentBlock?'},
+         props=('C01',), requires=[CTYPE_OK.replace('node', 'return_'), 'return_.type is not None'],
+         modifies=[m.replace('node.', 'return_.') for m in DISPATCH_MODS],
+         raises={'KeyError': 'True', 'AssertionError': 'True', 'SystemExit': 'True', 'ValueError': 'True'},
+         let={'rtag': "block.tags.get('returns') if block else None",
+              'is_void': "return_.type == ast.TYPE_NONE"},
+         ensures={
+             'C01.return.annotations_come_from_the_returns_tag':
+                 "all_calls('_apply_annotations_param_ret_common', 'arg_parent is parent and arg_node is return_ and "
+                 "(arg_tag is rtag or arg_tag is None)')",
+             'C01.return.annotation_on_void_is_rejected_with_a_warning':
+                 "implies(rtag is not None and is_void, "
+                 "all_calls('_apply_annotations_param_ret_common', 'arg_tag is None') and "
+                 "LOGGER._warning_count >= old(LOGGER._warning_count) + 1)",
+             'C01.return.annotations_on_values_are_applied':
+                 "implies(rtag is not None and not is_void, "
+                 "all_calls('_apply_annotations_param_ret_common', 'arg_tag is rtag'))",
+         })
